@@ -89,11 +89,6 @@ example : left demo 1 = some 3 ∧ right demo 1 = none ∧ demo.parent 3 = some 
 
 /-! ## 3. transfer -/
 
-theorem bgate_zero (d : Nat) (t : BTree) : bgate 0 d t = t := by
-  induction t generalizing d with
-  | nil => rfl
-  | node i n a l r ihl ihr => simp [bgate, ihl, ihr]
-
 /-- **C04 in every reachable state.**  For every history of `BinaryNode` calls from freshly built nodes
 (any arguments, any hook faults) and every node `r` of the final store, the real-shaped in-order iterator
 (`Iter.inorderImpl`, no filter, no depth limit) run on the read-back of `r`
